@@ -32,6 +32,22 @@ def translate(ctx):
                     "extract/precedence.py failed on %s:\n%s\n" % (C.REPO, e), found_input=False)
         return None
     ch = C.write_if_changed(os.path.join(C.LEAN, "HawkModel", "Gen", "Precedence.lean"), txt)
+    # keyword table (kwtab[]) and redirection spellings (print_outop_str[], getline_inop_str[]) -> Gen/Keywords.lean
+    kp = os.path.join(C.VERIF, "extract", "keywords.py")
+    kspec = importlib.util.spec_from_file_location("c17_keywords", kp)
+    kx = importlib.util.module_from_spec(kspec)
+    kspec.loader.exec_module(kx)
+    try:
+        KT = kx.extract(C.REPO)
+        m = re.search(r"inductive TK where(.*?)deriving", txt, re.S)
+        ktxt = kx.render(KT, set(re.findall(r"\| (\w+)", m.group(1))))
+    except kx.ExtractError as e:
+        ctx.problem("corr", "translator extract/keywords.py can no longer extract the keyword / redirection tables: %s" % e,
+                    "extract/keywords.py failed on %s:\n%s\n" % (C.REPO, e), found_input=False)
+        return None
+    kch = C.write_if_changed(os.path.join(C.LEAN, "HawkModel", "Gen", "Keywords.lean"), ktxt)
+    ctx.log("translator: Gen/Keywords.lean %s (%d keywords, %d output / %d input redirection spellings)" %
+            ("rewritten" if kch else "unchanged", len(KT["keywords"]), len(KT["outop"]), len(KT["inop"])))
     ctx.log("translator: Gen/Precedence.lean %s (%d ladder levels, %d binops, %d symbols)" %
             ("rewritten" if ch else "unchanged", len(T["ladder"]), len(T["binops"]), len(T["symbols"])))
     return T
@@ -150,7 +166,24 @@ def differential(ctx, hawk, prog, inputs=INPUTS, tag="x"):
         # narrow class: a folded floating-point constant that is infinite or NaN is written as the bare word inf / nan / -nan
         if NONFINITE_RE.search(v.d1) and not NONFINITE_RE.search(prog):
             v.sig = "deparse-nonfinite-constant"
+        elif v.kind in ("behaviour", "unstable") and float_literal_not_read_back(ctx, hawk, prog, v.d1):
+            v.sig = "deparse-float-precision"
     return v
+
+
+REREND_RE = re.compile(r"(?<![\w.])\d\.\d{16}e[-+]\d+(?![\w.])")
+
+
+def float_literal_not_read_back(ctx, hawk, prog, d1):
+    """narrow class: D1 contains a re-rendered floating-point constant (print_expr's 17-digit exponent form, not in the source)
+    that hawk itself does not read back to the same number - `printf "%.16e"` of the literal is another text.  hawk_flt_t is
+    long double and fold_constants_for_binop computes in it; hawk_oochars_to_flt takes 18 mantissa digits and is not exact."""
+    lits = [m for m in dict.fromkeys(REREND_RE.findall(d1)) if m not in prog][:6]
+    for lit in lits:
+        r = run_hawk(ctx, hawk, 'BEGIN { x = %s; printf("%%.16e\\n", x); }\n' % lit, "", "fl", 10)
+        if r.rc == 0 and r.out.strip() and r.out.strip() != lit:
+            return True
+    return False
 
 
 def differential0(ctx, hawk, prog, inputs=INPUTS, tag="x", tmo=10):
@@ -569,7 +602,18 @@ class Gen:
         strs = ['"x"', '""', '"a b"', '"q\\"r"', '"t\\tu\\nv"', '"\\\\"', '"\\/"', '"\\047"', '"\\x41\\x01"', '"\\u00e9"', '"é"', '"a\\0b"', "'c'", "'\\n'", "'\\''", "'\\\\'", "'\"'", '@b"b\\xff\\x01c"', "@b'z'", "@b'\\xfe'",
                 '@b"q\\"r"', '"%s %d"', '"a" "b"', '"a" 1', '1 "a"', '"a" (1 + 2)', "'c' 'd'", '@b"x" @b"y"', '"/"', '"a/b" ~ /a\\/b/', 's ~ /x/', 's ~ "x"', '/x/', '!/x/', '/x/ ? 1 : 2',
                 '/x/ || /y/', '(/x/) + 1', '"x" ~ /\\x78/', '"a.b" ~ /a\\.b/', '"a b" ~ /a b/', '"ab" ~ /a{0,1}b/', '@nil', '@nil == ""', 'hawk::typename(@nil)', "hawk::typename('c')", 'hawk::typename(@b"x")']
-        return ints + flts + strs
+        # round 5: representation boundaries of literals (exactly representable / largest / smallest floats, folded negative
+        # zero, escapes next to digits and quotes, slashes and brackets inside regular expressions, byte characters)
+        more = ["1e22", "1e22 + 1", "4503599627370496.5", "9007199254740993", "9007199254740992.0 + 0", "0.1 * 3", "1e308 * 1", "5e-324 * 1" if False else "1e-300 * 1e-10",
+                "-0.0", "0 * -1.0", "-(0.0)", "1 / -4", "-9223372036854775807 - 1 - 0", "9223372036854775807 + 1", "0x7fffffffffffffff", "-0x10", "1e0", "1.", "-.5e1",
+                '"\\\""', '"\\n"', '"a\\"', '"\0011"', '"\x4142"' if False else '"\x41" "42"', '"\1012"', "'\0'", "'\x41'", "'\101'", "@b'\''", "@b'\\'", '@b"\0"', '@b"\x00\x30"', '@b"\3771"',
+                's ~ /[/]/', 's ~ /a\/b\\/', 's ~ /\//', '"a/b" ~ /[/]b/', 's ~ /"/', 's ~ /\"/', "s ~ /'/", 's ~ /a\tb/', 's ~ /\x2f/', 's ~ /^\/\/$/', '/\// ? 1 : 2', '(/[/]/) (/x/)', 's ~ /a|\/|b/',
+                'split("a/b", q, /\//)', 'gsub(/\//, "\\/", s)', 'sub(/"/, "\"", s)']
+        # probes of the finding deparse-float-precision (a folded constant with more than 53 significant bits): run only when the
+        # finding is recorded, so that the check reports it as KNOWN-FINDING and not as a new violation on every run
+        if "deparse-float-precision" in dict(C.known_findings("C17")):
+            more += ["9007199254740992.0 + 1", "4611686018427387904.0 + 1", "1.0 / 3 * 3"]
+        return ints + flts + strs + more
 
     def fam_primary(self):
         return ["m[1]", "m[1,2]", "m[a, b]", "m[a][b]" if False else "m[(1, 2)]" if False else "m[a - 4]", "m[a b]", "m[a, b c]", "m[a > b]", "m[(a, b) in m]", "(1, 2) in m", "(1,2) in m", "(a, b c) in m", "((1, 2) in m)",
@@ -839,6 +883,18 @@ HAND_PROGRAMS = [
     'BEGIN {\n\tprint 1\n\tprint 2\n\tif (1)\n\t\tprint 3\n\telse\n\t\tprint 4\n\tx = 1 + 2\n\tprint x\n\tif (x ||\n\t\ta)\n\t\tprint 5\n}\n',
     'BEGIN { delete m; m[1]; print length(m); delete m[1]; print length(m); @reset m; m = 5; print m }\n',
     'BEGIN { a["x"] = 1; b = "x"; print b in a, !(b in a), (b in a) ? "y" : "n", b in a ? "y" : "n"; for (k in a) print k; for ((k) in a) print k }\n' if False else 'BEGIN { a["x"] = 1; b = "x"; print b in a, !(b in a), (b in a) ? "y" : "n", b in a ? "y" : "n"; for (k in a) print k }\n',
+    # round 5: every statement kind of the Lean statement model (HawkModel/DeparseStmt.lean) in one place, without getline / regular
+    # expressions, so that the byte-for-byte comparison with the model's printS / parseStmt sees each print_stmt case in every run
+    '@global G1, G2;\nfunction f(a, b) { @local x, y; x = a; if (a) { if (b) x = 1 } else y = 2; { @local z; z = 3; { @local w, v; w = z; v = w } } return x; }\n'
+    'function g(n) { if (n < 1) return; else if (n < 2) return 1; else if (n < 3) { return 2 } else if (n < 4) ; else return g(n - 1) }\n'
+    'BEGIN { if (a) if (b) x = 1; else y = 2; else if (c) ; else if (d) { } else z = 4;\n'
+    ' while (i < 3) i++; do { j++; } while (j < 3); do k++; while (k < 2);\n'
+    ' for (i = 0; i < 2; i++) print i; for (;;) break; for (i = 0;;) break; for (; i < 9;) i += 4; for (;; i++) if (i > 12) break;\n'
+    ' A[1] = 1; A[2, 3] = 2; for (k in A) delete A[k]; for (k in A) continue; delete A; A[1]; @reset A; delete(A);\n'
+    ' print; print 1, 2; print(1, 2); print (i > 1); print 1, (i > 1); print (i >> 1), (i | 1); print (i || j); printf "%d\\n", 3; printf("%d %d\\n", 1, 2);\n'
+    ' print 1, 2 > "/dev/null"; print 1 >> "/dev/null"; print 1 | "cat > o30.txt"; print f(1, 2), g(5); print (x = 5); print x = 6, 7;\n'
+    ' while (i > 0) { i--; if (i == 5) continue; if (i == 2) break; { } ; ; } if (x) { } else { } exit 3; }\n'
+    'NR == 1 { next; }\nNR == 2, NR == 3 { nextfile; }\n$1 == 2\nEND { nextofile; exit; @abort; }\n',
 ]
 
 
@@ -858,6 +914,70 @@ def model_outputs(ctx, exprs):
     if rc != 0:
         raise RuntimeError("lean driver deparse rc=%s: %s" % (rc, err.decode(errors="replace")[-2000:]))
     return out.decode(errors="replace").split("\n")[:-1]
+
+
+def d1_blocks(d1):
+    """the top-level blocks of a deparsed program (function bodies, BEGIN / END / pattern actions), each as `{\\n...}\\n`"""
+    out = []
+    ls = d1.split("\n")
+    i = 0
+    while i < len(ls):
+        l = ls[i]
+        if l == "{" or (l.endswith(" {") and not l.startswith("\t")):
+            j = i + 1
+            while j < len(ls) and ls[j] != "}":
+                j += 1
+            if j >= len(ls):
+                break
+            out.append("{\n" + "".join(x + "\n" for x in ls[i + 1:j]) + "}\n")
+            i = j
+        i += 1
+    return out
+
+
+_STR_RE = re.compile(r'"(?:[^"\\\n]|\\.)*"')
+
+
+def stmt_model(ctx, st, d1, d2, label):
+    """statement-level correspondence: every top-level block of D1 is read by the Lean model's lexer + statement parser
+    (HawkModel/DeparseStmt.lean parseStmt = parse.c parse_statement...) and printed again by the model's printS
+    (= tree.c print_stmt); the text must be D1's block byte for byte (D1 = print_stmt(C tree), and D2 == D1 is checked
+    by the differential up to constant folding; the comparison is with D2's block = print_stmt(C parse(D1)): a tree the model reads differently or prints differently shows),
+    and the model's own second generation must be stable"""
+    if d1 is None:
+        return
+    bs = d1_blocks(d1)
+    bs2 = d1_blocks(d2) if d2 is not None else bs
+    d2set = set(bs2)     # (functions are deparsed in hash-table order: D2's blocks are D1's in another order)
+    bs = [b for b in bs if "\x01" not in b and "\x02" not in b and "\r" not in b]
+    if not bs:
+        return
+    data = "".join("S " + b.replace("\n", "\x01").replace("\t", "\x02") + "\n" for b in bs).encode("utf-8", errors="surrogateescape")
+    rc, out, err = C.sh([_DRV["exe"], "deparse"], input_=data, timeout=60 + len(data) // 2000)
+    if rc != 0:
+        raise RuntimeError("lean driver deparse (statement mode) rc=%s: %s" % (rc, err.decode(errors="replace")[-2000:]))
+    res = out.decode(errors="replace").split("\n")[:-1]
+    for b, o in zip(bs, res):
+        if o.startswith("ok "):
+            stab, _, txt = o[3:].partition("\t")
+            txt = txt.replace("\x01", "\n").replace("\x02", "\t")
+            st.stmt_compared += 1
+            st.stmt_lines += b.count("\n")
+            # the model reads D1's text; what it prints for the tree it read must be what hawk prints for the tree hawk
+            # read from the same text, i.e. D2 (D2 differs from D1 only where parse_unary folds what parse_unary_exp left)
+            if txt not in d2set or stab != "stable":
+                st.stmt_mismatch.append((label, b, "%s\n%s" % (stab, txt)))
+            else:
+                st.stmt_distinct.add(b)
+            continue
+        nostr = _STR_RE.sub('""', b)
+        if o.startswith("err unsupported") or o.startswith("err lex-") or "getline" in nostr or "getbline" in nostr or "/" in nostr.replace(" / ", " ").replace(" /= ", " ") or "'" in nostr:
+            # getline forms, regular expression literals, character literals, @argv, a[i][j], constant folding with
+            # floating-point operands: outside the model (it answers unsupported / cannot lex)
+            st.stmt_unsupported += 1
+            continue
+        st.stmt_compared += 1
+        st.stmt_mismatch.append((label, b, o))
 
 
 def d1_begin_lines(d1):
@@ -894,6 +1014,11 @@ class Stats:
         self.nontrivial = set()
         self.stmt_kinds = {}
         self.model_mismatch = []
+        self.stmt_compared = 0
+        self.stmt_unsupported = 0
+        self.stmt_lines = 0
+        self.stmt_mismatch = []
+        self.stmt_distinct = set()
 
 
 def merge_stats(a, b):
@@ -905,6 +1030,11 @@ def merge_stats(a, b):
         a.stmt_kinds[k] = a.stmt_kinds.get(k, 0) + v
     a.nontrivial |= b.nontrivial
     a.model_mismatch += b.model_mismatch
+    a.stmt_compared += b.stmt_compared
+    a.stmt_unsupported += b.stmt_unsupported
+    a.stmt_lines += b.stmt_lines
+    a.stmt_mismatch += b.stmt_mismatch
+    a.stmt_distinct |= b.stmt_distinct
 
 
 def run_jobs(ctx, st, jobs, workers=8):
@@ -1008,6 +1138,7 @@ def check_batch(ctx, hawk, st, items, decls, label, model=True):
         st.d2_ne_d1 += 1
     for it in items:
         st.nontrivial.add(it.label)
+    stmt_model(ctx, st, v.d1, v.d2, label)
     if model:
         lines = d1_begin_lines(v.d1)
         if lines is None:
@@ -1044,6 +1175,7 @@ def check_program(ctx, hawk, st, prog, label):
         st.nontrivial.add(prog)
         if not v.d2_eq_d1:
             st.d2_ne_d1 += 1
+        stmt_model(ctx, st, v.d1, v.d2, label)
         return True
     if v.kind in ("src-rejected", "sanitizer-src"):
         if v.kind == "src-rejected":
@@ -1160,6 +1292,19 @@ def run(ctx):
             txt += "source: %s\nhawk  : %s\nmodel : %s\n" % (src2, got2, m2)
         ctx.problem("corr", "Lean model of print_expr/parser disagrees with `hawk -d` on %d expression statements, first `%s`: hawk %r, model %r" %
                     (len(st.model_mismatch), src[:80], got[:120], m[:120]), txt, found_input=False)
+    if st.stmt_mismatch:
+        lab, blk, got = st.stmt_mismatch[0]
+        txt = ("# model correspondence only (the property oracle - acceptance, behaviour and stability of the deparsed programs - was evaluated on the real code separately)\n"
+               "# %d blocks of deparsed programs are read or printed differently by the Lean statement model (HawkModel/DeparseStmt.lean: printS = tree.c print_stmt,\n"
+               "# parseStmt = parse.c parse_statement ... parse_print); first one [%s]:\n#---hawk -d---\n%s#---model (print (parse (lex text)))---\n%s\n"
+               "# the theorems stmt_* of HawkModel/Props/C17.lean are about the model's printS/parseStmt; they say nothing about code that prints or reads differently.\n"
+               % (len(st.stmt_mismatch), lab, blk, got))
+        for lab2, blk2, got2 in st.stmt_mismatch[1:4]:
+            txt += "#--- [%s]\n%s#---model---\n%s\n" % (lab2, blk2, got2)
+        ctx.problem("corr", "Lean model of print_stmt / the statement parser disagrees with `hawk -d` on %d blocks, first [%s]: model answers %r" %
+                    (len(st.stmt_mismatch), lab[:80], got[:160]), txt, found_input=False)
+    ctx.log("statement model: blocks compared=%d (lines %d, distinct %d) outside-the-model=%d mismatches=%d" %
+            (st.stmt_compared, st.stmt_lines, len(st.stmt_distinct), st.stmt_unsupported, len(st.stmt_mismatch)))
     ctx.log("programs=%d expr-items=%d rejected-by-generator=%d D2!=D1=%d model-compared=%d model-unsupported=%d problem-kinds=%s" %
             (st.programs, st.exprs, st.src_rejected, st.d2_ne_d1, st.model_compared, st.model_unsupported, st.kinds))
     samples = [HAND_PROGRAMS[0].strip()[:160], "r = (a ? b : c) %% 2", "r = a (-1)", "print a, (b > c) > \"o7.txt\""]
@@ -1175,7 +1320,8 @@ def run(ctx):
                                    model_compared=st.model_compared, model_unsupported=st.model_unsupported, node_kinds_seen_in_deparse=st.stmt_kinds,
                                    problem_kinds=st.kinds),
                     trusted=["token-level model HawkModel/Deparse.lean of print_expr and of the expression ladder (hand-written, driven by the generated tables); lexing of identifiers, numbers and strings is in the driver only",
-                             "statement-level printing (print_stmt, deparse, deparse_func), getline and print/printf redirection, regex/string/char literal escaping, __gN/__lN/__pN renaming: correspondence only",
+                             "statement level: HawkModel/DeparseStmt.lean (printS = print_stmt, parseStmt = parse_statement ... parse_print; keyword and redirection spellings generated from kwtab[] / print_outop_str[]) is tied to the code byte for byte on every block of every deparsed program; theorems cover all statement kinds but print with a redirection (model + correspondence only)",
+                             "getline forms, the top level (deparse, deparse_func: globals, function headers, pattern-action chains), regex/string/char literal escaping: correspondence only",
                              "floating-point rendering (%#.36g) and reading are trusted to round-trip; folding arithmetic is C08's"],
                     assumptions=["CLI default traits (modern mode: BLANKCONCAT, IMPLICIT, RIO, RWPIPE, TOLERANT ...)", "expression nesting of the deparsed text below the CLI's parse depth limit (50) — see finding deparse-nesting-depth"])
 
